@@ -61,13 +61,13 @@ variable {n m : Nat} {nb : Nbrs} {rf : Nat} {r : IR.St}
   (hA : IR.InvA (irG n nb) r) (hD : IR.InvD (irG n nb) r)
   (hlenm : ∀ o : List Nat, o.Perm (List.range n) → (certPos nb o n).length = m)
 
-/-- node step, inner node (not a leaf, last refinement not worse) -/
-theorem dfs_inner (lv : List (Nat × Nat)) (s s1 : LS) (hI : MInv n m nb s)
+/-- node step, inner node (not a leaf, last refinement not worse), ghost data explicit (unchanged) -/
+theorem dfs_inner_v (lv : List (Nat × Nat)) (s s1 : LS) (hI : MInv n m nb s)
     (hlv : LevelsOK s.op s.path s.choices lv) (hnl : s.op.binDividers.len ≠ n)
-    (_hJ : CertM n m nb lv false s) (h : ∃ gh, DNodev n nb rf r gh lv s) (hs1 : innerNode s = .ok s1)
+    (_hJ : CertM n m nb lv false s) (gh : Gh) (h : DNodev n nb rf r gh lv s) (hs1 : innerNode s = .ok s1)
     (lv1 : List (Nat × Nat)) (hl1 : LevelsOK s1.op s1.path s1.choices lv1) :
-    DN n nb rf r lv1 s1 := by
-  obtain ⟨gh, hw, hG, hcov, haux, hoff⟩ := h
+    DNv n nb rf r gh lv1 s1 := by
+  obtain ⟨hw, hG, hcov, haux, hoff⟩ := h
   obtain ⟨st, sz, e, hl', _, hsz2, _⟩ := innerNode_spec hI.core hlv hI.age hnl hs1
   subst e
   have elv : lv1 = (st, sz) :: lv := LevelsOK_unique _ _ _ _ hl1 hl'
@@ -82,7 +82,7 @@ theorem dfs_inner (lv : List (Nat × Nat)) (s s1 : LS) (hI : MInv n m nb s)
   obtain ⟨_, _, _, _, _, _, _, f8, f9, _⟩ := frame_facts (nb := nb) hI.core.part hI.core.age hmt hb hsz2
     (Nat.le_refl st) (show st < st + sz by omega)
   have htk : gh.vs.take s.path.length = gh.vs := by rw [← h3]; exact List.take_length
-  refine ⟨gh, ?_, ?_, ?_, ?_⟩
+  refine ⟨?_, ?_, ?_, ?_⟩
   · refine ⟨h1, h2, by simp only [List.length_cons]; omega, h4, ?_, h6, h7⟩
     show FramesOK n nb rf r gh.vs (sz :: s.path) ((st + sz) :: s.choices) ((st, sz) :: lv)
     simp only [FramesOK]
@@ -105,6 +105,15 @@ theorem dfs_inner (lv : List (Nat × Nat)) (s s1 : LS) (hI : MInv n m nb s)
     · intro h0 hpre; exact absurd (hF _ hpre) (hoff h0).2
     · intro h0 hpre; exact absurd (hF _ hpre) (hoff h0).1
     · intro _; simp only [if_true]; omega
+
+/-- node step, inner node (not a leaf, last refinement not worse) -/
+theorem dfs_inner (lv : List (Nat × Nat)) (s s1 : LS) (hI : MInv n m nb s)
+    (hlv : LevelsOK s.op s.path s.choices lv) (hnl : s.op.binDividers.len ≠ n)
+    (_hJ : CertM n m nb lv false s) (h : ∃ gh, DNodev n nb rf r gh lv s) (hs1 : innerNode s = .ok s1)
+    (lv1 : List (Nat × Nat)) (hl1 : LevelsOK s1.op s1.path s1.choices lv1) :
+    DN n nb rf r lv1 s1 := by
+  obtain ⟨gh, h⟩ := h
+  exact ⟨gh, dfs_inner_v lv s s1 hI hlv hnl _hJ gh h hs1 lv1 hl1⟩
 
 end
 end CanonF
